@@ -60,6 +60,10 @@ def make(name: str, *args):
         from .survey import SurveyScenario
 
         return SurveyScenario()
+    if name == "C18":
+        from .drillhole import DrillholeScenario
+
+        return DrillholeScenario()
     if name == "C10":
         from .readonly import ReadOnlyScenario
 
